@@ -211,3 +211,115 @@ de_harness! {
         std::mem::forget(cfg);
     }
 }
+struct OneEntryP<K, V>(std::marker::PhantomData<(K, V)>);
+impl<'de, K: Deserialize<'de>, V: Deserialize<'de>> Visitor<'de> for OneEntryP<K, V> {
+    type Value = Option<(K, V)>;
+    fn expecting(&self, f: &mut std::fmt::Formatter) -> std::fmt::Result { f.write_str("map") }
+    fn visit_map<A: serde::de::MapAccess<'de>>(self, mut m: A) -> std::result::Result<Self::Value, A::Error> {
+        let k = m.next_key::<K>();
+        kani::cover!(k.is_err(), "DBG key err");
+        kani::cover!(matches!(&k, Ok(None)), "DBG key none");
+        match k? {
+            None => Ok(None),
+            Some(k) => {
+                let v = m.next_value::<V>();
+                kani::cover!(v.is_err(), "DBG value err");
+                let v = v?;
+                let k2 = m.next_key::<K>();
+                kani::cover!(k2.is_err(), "DBG key2 err");
+                kani::cover!(matches!(&k2, Ok(Some(_))), "DBG key2 some");
+                match k2? {
+                    None => Ok(Some((k, v))),
+                    Some(_) => Err(serde::de::Error::custom("more than one entry")),
+                }
+            }
+        }
+    }
+}
+de_harness! {
+    #[kani::unwind(8)]
+    fn dbg_map_text_u8_concrete() {
+        let buf: [u8; 4] = [1, 1, b'k', 200];
+        let mk = || ty(TypeInner::Vec(ty(TypeInner::Record(vec![fld(Label::Id(0), ty(TypeInner::Text)), fld(Label::Id(1), ty(TypeInner::Nat8))]))));
+        let mut de = mk_de(&buf[..], mk(), mk(), cfg_none());
+        let r = (&mut de).deserialize_map(OneEntryP::<&str, u8>(std::marker::PhantomData));
+        kani::cover!(r.is_ok(), "DBG ok");
+        kani::cover!(r.is_err(), "DBG err");
+        kani::cover!(matches!(&r, Ok(None)), "DBG ok none");
+        kani::cover!(de.input.position() == 3, "DBG pos 3");
+        kani::cover!(de.input.position() == 4, "DBG pos 4");
+        kani::cover!(*de.expect_type == TypeInner::Nat8, "DBG expect nat8");
+        kani::cover!(*de.wire_type == TypeInner::Nat8, "DBG wire nat8");
+        kani::cover!(matches!(de.expect_type.as_ref(), TypeInner::Vec(_)), "DBG expect vec");
+        kani::cover!(matches!(&r, Err(Error::Subtype(_))), "DBG subtype err");
+        kani::cover!(de.text_fast_path, "DBG text flag still set");
+        std::mem::forget(r);
+        std::mem::forget(de);
+    }
+}
+de_harness! {
+    #[kani::unwind(8)]
+    fn dbg_type_via_heap_field() {
+        let buf: [u8; 1] = [200];
+        let fields = vec![fld(Label::Id(0), ty(TypeInner::Text)), fld(Label::Id(1), ty(TypeInner::Nat8))];
+        let ev: Type = match &fields[..] {
+            [Field { .. }, Field { ty: ev, .. }] => ev.clone(),
+            _ => unreachable!(),
+        };
+        kani::cover!(*ev == TypeInner::Nat8, "DBG ev is nat8");
+        kani::cover!(*ev != TypeInner::Nat8, "DBG ev is not nat8");
+        let mut de = mk_de(&buf[..], ev.clone(), ev.clone(), cfg_none());
+        let r = <u8>::deserialize(&mut de);
+        kani::cover!(r.is_ok(), "DBG ok");
+        kani::cover!(r.is_err(), "DBG err");
+        std::mem::forget(r);
+        std::mem::forget(de);
+        std::mem::forget(fields);
+    }
+}
+de_harness! {
+    #[kani::unwind(8)]
+    fn dbg_map_u8_u8_concrete() {
+        let buf: [u8; 3] = [1, 5, 200];
+        let mk = || ty(TypeInner::Vec(ty(TypeInner::Record(vec![fld(Label::Id(0), ty(TypeInner::Nat8)), fld(Label::Id(1), ty(TypeInner::Nat8))]))));
+        let mut de = mk_de(&buf[..], mk(), mk(), cfg_none());
+        let r = (&mut de).deserialize_map(OneEntryP::<u8, u8>(std::marker::PhantomData));
+        kani::cover!(r.is_ok(), "DBG ok");
+        kani::cover!(r.is_err(), "DBG err");
+        kani::cover!(de.input.position() == 2, "DBG pos 2");
+        kani::cover!(de.input.position() == 3, "DBG pos 3");
+        kani::cover!(*de.expect_type == TypeInner::Nat8, "DBG expect nat8");
+        kani::cover!(*de.wire_type == TypeInner::Nat8, "DBG wire nat8");
+        kani::cover!(matches!(&r, Err(Error::Subtype(_))), "DBG subtype err");
+        std::mem::forget(r);
+        std::mem::forget(de);
+    }
+}
+de_harness! {
+    #[kani::unwind(8)]
+    fn dbg_pooled_record_fields() {
+        let m = ty(TypeInner::Vec(ty(TypeInner::Record(vec![fld(Label::Id(0), ty(TypeInner::Text)), fld(Label::Id(1), ty(TypeInner::Nat8))]))));
+        if let TypeInner::Vec(e) = m.as_ref() {
+            if let TypeInner::Record(ref fs) = e.as_ref() {
+                match &fs[..] {
+                    [Field { id: i0, ty: ek }, Field { id: i1, ty: ev }] => {
+                        kani::cover!(**i0 == Label::Id(0) && **i1 == Label::Id(1), "DBG ids ok");
+                        kani::cover!(**ek == TypeInner::Text, "DBG ek text");
+                        kani::cover!(**ev == TypeInner::Nat8, "DBG ev nat8");
+                        kani::cover!(**ev == TypeInner::Text, "DBG ev text");
+                        let pair = (ek.clone(), ev.clone());
+                        kani::cover!(*pair.1 == TypeInner::Nat8, "DBG pair.1 nat8");
+                        let st = Style::Map { len: 1, expect: pair.clone(), wire: pair, key_text_fast: true };
+                        if let Style::Map { expect, .. } = &st {
+                            kani::cover!(*expect.1 == TypeInner::Nat8, "DBG style expect.1 nat8");
+                            kani::cover!(*expect.0 == TypeInner::Text, "DBG style expect.0 text");
+                        }
+                        std::mem::forget(st);
+                    }
+                    _ => { kani::cover!(true, "DBG slice pattern mismatch"); }
+                }
+            }
+        }
+        std::mem::forget(m);
+    }
+}
